@@ -34,8 +34,23 @@ def call_many(drv, objs):
 
 # ------------------------------------------------------------------ C16
 
-def impl_trim(rules):
-    rm = RouteMap(name="t", rules=[RouteMapRule(dest=SimpleId(id=d), addr_range=AddrRange(start=s, end=e)) for d, s, e in rules])
+def mk_range(s, e, form):
+    """the same range [s, e) written in the different accepted forms"""
+    size = e - s
+    if form == 1:
+        return AddrRange(start=s, size=size)
+    if form == 2:
+        return AddrRange(base=s, size=size)
+    if form == 3 and s % size == 0:
+        return AddrRange(base=0, size=size, idx=s // size)        # array window
+    if form == 4:
+        return AddrRange(start=s, end=e, size=size)
+    return AddrRange(start=s, end=e)
+
+
+def impl_trim(rules, forms=None):
+    rm = RouteMap(name="t", rules=[RouteMapRule(dest=SimpleId(id=d), addr_range=mk_range(s, e, (forms or [0] * len(rules))[k]))
+                                   for k, (d, s, e) in enumerate(rules)])
     rm.trim()
     return [[r.dest.id, r.addr_range.start, r.addr_range.end, r.addr_range.size] for r in rm.rules]
 
@@ -111,7 +126,10 @@ class C16Runner:
                     raise RuntimeError(r["error"])
                 stats["evaluated"] += 1
                 distinct.add(tuple(c))
-                it = impl_trim(c)
+                try:
+                    it = impl_trim(c, [(stats["evaluated"] + 7 * k) % 5 for k in range(len(c))])
+                except Exception as e:  # pylint: disable=broad-except
+                    it = [["trim raised " + type(e).__name__, 0, 0, 0]]
                 # the property, decided on the implementation's result
                 pts = sorted({x for _, s, e in c for x in (s - 1, s, e - 1, e)})
                 ok = all(sorted(decode(c, i)) == sorted(decode(it, i)) for i in pts)
